@@ -50,9 +50,8 @@ Reindexed == { "face_edge", "edge_face", "node_face", "face_face", "holes" }
 \* holesCarried    : hole_edge_indices of the source is copied to the result unsliced
 \* neighbourCarried: neighbourhood-dependent per-edge values of the source are kept, sliced along n_edge
 Mech_intended == [ keepHelperAttrs |-> FALSE, holesCarried |-> FALSE, neighbourCarried |-> FALSE ]
-\* the code as it is now (after fix commits 8ad0ac60 and 7638a0fd): revised whenever a fix lands.
-\* OPEN (proposed/C09-5): edge_face_distances is still carried; set neighbourCarried to FALSE when that fix lands
-Mech_observed == [ keepHelperAttrs |-> FALSE, holesCarried |-> FALSE, neighbourCarried |-> TRUE ]
+\* the code as it is now (after fix commits 8ad0ac60, 7638a0fd and 793eb5ab): revised whenever a fix lands
+Mech_observed == [ keepHelperAttrs |-> FALSE, holesCarried |-> FALSE, neighbourCarried |-> FALSE ]
 \* the code as first read (before those commits); TLC must keep refuting these variants
 Mech_prefix   == [ keepHelperAttrs |-> TRUE,  holesCarried |-> TRUE,  neighbourCarried |-> TRUE ]
 MechNamed(n) == CASE n = "intended"     -> Mech_intended
@@ -60,7 +59,8 @@ MechNamed(n) == CASE n = "intended"     -> Mech_intended
                   [] n = "prefix"       -> Mech_prefix
                   [] n = "rev_8ad0ac60" -> [ Mech_observed EXCEPT !.keepHelperAttrs = TRUE ]   \* side tables copied again
                   [] n = "rev_7638a0fd" -> [ Mech_observed EXCEPT !.holesCarried = TRUE ]      \* hole list carried again
-                  [] n = "carry_neighbour" -> [ Mech_intended EXCEPT !.neighbourCarried = TRUE ]  \* edge_face_distances carried
+                  [] n = "rev_793eb5ab" -> [ Mech_observed EXCEPT !.neighbourCarried = TRUE ]  \* edge_face_distances carried again
+                  [] n = "carry_neighbour" -> [ Mech_intended EXCEPT !.neighbourCarried = TRUE ]  \* the same, alone
 
 Shapes == { "proper", "perm", "identity" }     \* proper subset / all faces in another order / all faces in order
 \* side tables on the result's edge table right after slicing
